@@ -564,7 +564,7 @@ Definition ojl := mkOpts false true.
 
 (* client path: close() between commitSubscription and PublishJoin *)
 Definition leave_join_cli : list label :=
-  [LSpawn OConnect] ++ rep 8 (LStep 0 true) ++
+  [LSpawn OConnect] ++ rep 9 (LStep 0 true) ++
   [LSpawn (OSubCli 0 ojl)] ++ rep 10 (LStep 2 true) ++   (* ... commit, gate released; parked before PublishJoin *)
   [LSpawn OClose] ++ rep 15 (LStep 4 true) ++            (* close: unsubscribe publishes the leave *)
   [LStep 2 true].                                        (* the join lands afterwards *)
@@ -585,7 +585,7 @@ Qed.
 
 (* server-side path: the writer is closed before Client.Subscribe enqueues its push *)
 Definition leave_no_join_srv : list label :=
-  [LSpawn OConnect] ++ rep 8 (LStep 0 true) ++
+  [LSpawn OConnect] ++ rep 9 (LStep 0 true) ++
   [LSpawn (OSubSrv 0 ojl)] ++ rep 7 (LStep 2 true) ++    (* ... commit, gate released; before the push *)
   [LSpawn OClose] ++ rep 15 (LStep 4 true) ++            (* close: writer closed, leave published *)
   [LStep 2 true].                                        (* push not enqueued: returns without join *)
